@@ -227,6 +227,7 @@ type Engine struct {
 	KnownOpen map[string]bool
 	Redirect  map[string]string
 	Havoc     map[string]bool // functions replaced by fresh unconstrained results (choice functions whose every outcome must be tolerated)
+	FloatTaint bool // symbolic ints reaching float conversions are candidates, not engine errors
 	ForkAll   map[string]bool // functions in which every symbolic branch forks
 	ForkIn    map[string]bool // functions in which a symbolic branch whose region contains a loop or return forks instead of merging
 }
